@@ -201,3 +201,51 @@ Proof.
   intros F. destruct nearest_refuted as (cv & cvs & cr & isim & cm & vl & fuel & root & g & k & e0 & rest & VF & R & A & B & Fl & N).
   apply N. eapply (F cv cvs cr isim cm vl fuel root g VF R k e0 rest A B Fl). simpl. auto.
 Qed.
+
+(* ================================================================ totality for table clients *)
+Lemma table_answers_in t : answers_in (tc_version t) (tc_versions t) (tb_universe t).
+Proof.
+  unfold answers_in, tb_universe. split.
+  - intros k v. unfold tc_version. destruct (aget vkey_dec (t_vers t) k) as [r|] eqn:G; [|discriminate].
+    intros ->. apply aget_In in G. apply in_or_app. left. apply in_flat_map. exists (k, Ok v). simpl. auto.
+  - intros pk vs. unfold tc_versions. destruct (aget pkey_dec (t_lists t) pk) as [r|] eqn:G; [|discriminate].
+    intros -> v Hv. apply aget_In in G. apply in_or_app. right. apply in_flat_map. exists (pk, Ok vs). simpl.
+    split; auto. now apply in_map.
+Qed.
+
+Lemma res_plainb_spec {A} (r : res A) : res_plainb r = true -> res_plain r.
+Proof.
+  destruct r; simpl; auto; try discriminate. intros H E. subst. discriminate.
+Qed.
+
+Lemma table_lookup_plain {K A} (dec : forall a b : K, {a = b} + {a <> b}) (m : list (K * res A)) k :
+  forallb (fun x => res_plainb (snd x)) m = true ->
+  res_plain (match aget dec m k with Some r => r | None => Err EMissing end).
+Proof.
+  intros H. destruct (aget dec m k) as [r|] eqn:G.
+  - apply aget_In in G. rewrite forallb_forall in H. apply res_plainb_spec. apply (H _ G).
+  - simpl. discriminate.
+Qed.
+
+Lemma table_client_total t : tb_plain t = true ->
+  client_total (tc_version t) (tc_versions t) (tc_requirements t) (tc_simple t).
+Proof.
+  unfold tb_plain. rewrite !andb_true_iff. intros [[H1 H2] H3]. repeat split.
+  - intros k. now apply table_lookup_plain.
+  - intros k. now apply table_lookup_plain.
+  - intros k. now apply table_lookup_plain.
+  - intros s. unfold tc_simple. destruct (aget bytes_dec (t_simple t) s) as [z|]; simpl; [|discriminate].
+    destruct (z =? 2)%Z; simpl; auto. discriminate.
+Qed.
+
+Lemma table_resolve_total t root : tb_plain t = true ->
+  forall fuel, (tb_fuel t <= fuel)%nat -> good (table_resolve t fuel root).
+Proof.
+  intros P fuel Hf. unfold table_resolve.
+  apply (thm_resolve_total _ _ _ _ _ _ (tb_universe t)); auto.
+  - apply table_answers_in.
+  - now apply table_client_total.
+Qed.
+
+Lemma ex_plain : tb_plain ex_tables = true.
+Proof. vm_compute. reflexivity. Qed.
